@@ -539,11 +539,20 @@ def inline_new_temps(fn, r, stats, key):
     afterwards, is a name for that expression: substitute it back (the inverse of "introduce explaining variable")."""
     ref_names = set(n for o in r['names'] for n in o)
     ref_names |= {n.split('\x01')[0] for n in ref_names}
-    own = fn_scope_locals(fn)
     params = {a.arg for a in fn.args.posonlyargs + fn.args.args + fn.args.kwonlyargs} | {x.arg for x in (fn.args.vararg, fn.args.kwarg) if x}
-    cand = [n for n in own if n not in ref_names and n not in params]
-    if not cand:
+    if not [n for n in fn_scope_locals(fn) if n not in ref_names and n not in params]:
         return 0
+    from . import webs
+    webs.split(fn, fn_scope_locals(fn))          # a name assigned in two branches for two uses is two temporaries
+    try:
+        return _inline_new_temps(fn, ref_names, params, stats, key)
+    finally:
+        webs.merge(fn)
+
+
+def _inline_new_temps(fn, ref_names, params, stats, key):
+    own = fn_scope_locals(fn)
+    cand = [n for n in own if n.split('\x01')[0] not in ref_names and n not in params]
     done = 0
     order = {}
     for i, n in enumerate(_preorder(fn)):
@@ -557,10 +566,13 @@ def inline_new_temps(fn, r, stats, key):
         if found is None:
             continue
         block, idx, st = found
-        if not _pure(st.value) or isinstance(st.value, (ast.ListComp, ast.SetComp, ast.DictComp, ast.GeneratorExp)) and False:
-            continue
         pos = order[id(st)]
         loads = [n for n in ast.walk(fn) if isinstance(n, ast.Name) and n.id == v and isinstance(n.ctx, ast.Load)]
+        if not _pure(st.value):
+            # an expression with calls may only move into the very next statement, used once, outside any loop/comprehension/lambda of it
+            nxt = block[idx + 1] if idx + 1 < len(block) else None
+            if nxt is None or len(loads) != 1 or isinstance(nxt, (ast.For, ast.While, ast.If, ast.With, ast.Try, ast.FunctionDef)) or _use_count([nxt], v) != (1, False):
+                continue
         if not loads or any(order[id(n)] < pos for n in loads):
             continue
         # every use must be dominated by the definition: inside the statements that follow it in its own block
@@ -1003,7 +1015,7 @@ def _inline_in(fn, lookup, key, stats):
                 body0 = _body_of(h)
                 rets = _returns(body0)
                 single_tail = len(rets) == 1 and body0 and body0[-1] is rets[0]
-                allow = [t.id for t in s.targets if isinstance(t, ast.Name)] if isinstance(s, ast.Assign) else []
+                allow = [n.id for t in s.targets for n in ast.walk(t) if isinstance(n, ast.Name) and isinstance(t, (ast.Name, ast.Tuple, ast.List))] if isinstance(s, ast.Assign) else []
                 if not (isinstance(s, ast.Return) or single_tail or not rets) and isinstance(s, (ast.Assign, ast.Expr)):
                     ex = _expand(h, call, caller_locals, is_method, self_expr, allow)
                     if ex is not None:
@@ -1033,8 +1045,8 @@ def _inline_in(fn, lookup, key, stats):
                             val = last.value if last is not None and last.value is not None else ast.Constant(value=None)
                             if isinstance(s, ast.Assign):
                                 tail = [ast.Assign(targets=s.targets, value=val)]
-                                if len(s.targets) == 1 and isinstance(s.targets[0], ast.Name) and isinstance(val, ast.Name) and val.id == s.targets[0].id:
-                                    tail = []
+                                if len(s.targets) == 1 and ast.dump(s.targets[0]).replace('Store()', 'Load()') == ast.dump(val):
+                                    tail = []           # T = T / (a, b) = (a, b)
                             else:
                                 tail = [] if _simple(val) else [ast.Expr(value=val)]
                             new = binds + core_ + tail
